@@ -106,6 +106,10 @@ pub struct AbortCase {
     /// the abort packet itself carries a receipt-number field (06 1E 04 <code> 87 nn nn)
     #[serde(default)]
     pub with_receipt: Option<u64>,
+    /// the abort packet carries further data objects behind the code (`sim::ABORT_EXTRAS[i]`: expected currency, TLV container
+    /// with extended error code / text, receipt number)
+    #[serde(default)]
+    pub extra: Option<usize>,
     /// the first attempt of the exchange loses its connection at this packet position (0 = instead of the acknowledgement,
     /// 1 = instead of the first reply, 99 = instead of the completion, i.e. behind the status information); the abort answers
     /// the re-sent request on the new connection. 98 = no fault in the call itself: the terminal dropped the idle connection
@@ -198,7 +202,7 @@ pub fn check_abort(c: &AbortCase) -> CheckResult {
             (n, n + 1)
         }
     };
-    sc.plan = vec![PlanEntry { kind: c.site, occ: Some(abort_occ), from_start: false, directive: Directive { outcome: if let Some(rc) = c.with_receipt { Outcome::AbortWithReceipt(c.code, rc) } else if c.after_status { Outcome::AbortAfterStatus(c.code) } else { Outcome::Abort(c.code) }, ..Default::default() } }];
+    sc.plan = vec![PlanEntry { kind: c.site, occ: Some(abort_occ), from_start: false, directive: Directive { outcome: if let Some(x) = c.extra { Outcome::AbortExtended(c.code, x) } else if let Some(rc) = c.with_receipt { Outcome::AbortWithReceipt(c.code, rc) } else if c.after_status { Outcome::AbortAfterStatus(c.code) } else { Outcome::Abort(c.code) }, ..Default::default() } }];
     if idle {
         sc.ops.insert(0, Op::ReadCard);
         sc.plan.push(PlanEntry { kind: Kind::ReadCard, occ: Some(0), from_start: false, directive: Directive { fault: Some((FaultKind::Close, 99)), ..Default::default() } });
@@ -288,7 +292,7 @@ pub fn run(tier: Tier) -> i32 {
                 // the abort may also come behind a print line and a status information (declined payment)
                 let status_site = matches!(site, Kind::Reservation | Kind::PartialReversal | Kind::PreAuthReversal | Kind::EndOfDay);
                 if status_site {
-                    let c2 = AbortCase { op: op.to_string(), site, code: code as u8, intermediates: inter, after_status: true, with_receipt: None, prior_fault: None, others_open: false, dangling, terminal_id_differs: tid };
+                    let c2 = AbortCase { op: op.to_string(), site, code: code as u8, intermediates: inter, after_status: true, with_receipt: None, extra: None, prior_fault: None, others_open: false, dangling, terminal_id_differs: tid };
                     st.case(true, fnv(&serde_json::to_vec(&c2).unwrap()));
                     st.class(&format!("{op}/{site:?}:after-status-information"));
                     ctx.record(check_abort(&c2), st);
@@ -296,16 +300,26 @@ pub fn run(tier: Tier) -> i32 {
                 // the reversal / end-of-day family may put a receipt-number field into the abort packet itself
                 if matches!(site, Kind::PendingQuery | Kind::PartialReversal | Kind::PreAuthReversal | Kind::EndOfDay) && inter == 0 {
                     for rc in [0xffffu64, 4711] {
-                        let c3 = AbortCase { op: op.to_string(), site, code: code as u8, intermediates: 0, after_status: false, with_receipt: Some(rc), prior_fault: None, others_open: false, dangling, terminal_id_differs: tid };
+                        let c3 = AbortCase { op: op.to_string(), site, code: code as u8, intermediates: 0, after_status: false, with_receipt: Some(rc), extra: None, prior_fault: None, others_open: false, dangling, terminal_id_differs: tid };
                         st.case(true, fnv(&serde_json::to_vec(&c3).unwrap()));
                         st.class(&format!("{op}/{site:?}:abort-with-receipt-field"));
                         ctx.record(check_abort(&c3), st);
                     }
                 }
+                // the abort packet may carry more than the code: the expected currency, a TLV container with an extended error
+                // code / text, a receipt number (the code is the first byte in every form)
+                if inter <= 1 {
+                    for x in 0..crate::sim::ABORT_EXTRAS.len() {
+                        let c6 = AbortCase { op: op.to_string(), site, code: code as u8, intermediates: inter, after_status: false, with_receipt: None, extra: Some(x), prior_fault: None, others_open: false, dangling, terminal_id_differs: tid };
+                        st.case(true, fnv(&serde_json::to_vec(&c6).unwrap()));
+                        st.class(&format!("{op}/{site:?}:abort-with-further-data-objects"));
+                        ctx.record(check_abort(&c6), st);
+                    }
+                }
                 // the same abort while another transaction is open on the client (own exchanges of begin / commit / cancel)
                 if inter <= 1 && matches!((op, site), ("begin", Kind::Reservation) | ("commit", Kind::PartialReversal) | ("cancel", Kind::PreAuthReversal)) && !dangling {
                     for after_status in [false, true] {
-                        let c5 = AbortCase { op: op.to_string(), site, code: code as u8, intermediates: inter, after_status, with_receipt: None, prior_fault: None, others_open: true, dangling, terminal_id_differs: tid };
+                        let c5 = AbortCase { op: op.to_string(), site, code: code as u8, intermediates: inter, after_status, with_receipt: None, extra: None, prior_fault: None, others_open: true, dangling, terminal_id_differs: tid };
                         st.case(true, fnv(&serde_json::to_vec(&c5).unwrap()));
                         st.class(&format!("{op}/{site:?}:another-transaction-open"));
                         ctx.record(check_abort(&c5), st);
@@ -322,7 +336,7 @@ pub fn run(tier: Tier) -> i32 {
                             if after_status && !status_site {
                                 continue;
                             }
-                            let c4 = AbortCase { op: op.to_string(), site, code: code as u8, intermediates: inter, after_status, with_receipt: None, prior_fault: Some(pf), others_open: false, dangling, terminal_id_differs: tid };
+                            let c4 = AbortCase { op: op.to_string(), site, code: code as u8, intermediates: inter, after_status, with_receipt: None, extra: None, prior_fault: Some(pf), others_open: false, dangling, terminal_id_differs: tid };
                             st.case(true, fnv(&serde_json::to_vec(&c4).unwrap()));
                             st.class(&format!("{op}/{site:?}:abort-of-the-re-sent-request"));
                             ctx.record(check_abort(&c4), st);
@@ -332,7 +346,7 @@ pub fn run(tier: Tier) -> i32 {
                         }
                     }
                 }
-                let c = AbortCase { op: op.to_string(), site, code: code as u8, intermediates: inter, after_status: false, with_receipt: None, prior_fault: None, others_open: false, dangling, terminal_id_differs: tid };
+                let c = AbortCase { op: op.to_string(), site, code: code as u8, intermediates: inter, after_status: false, with_receipt: None, extra: None, prior_fault: None, others_open: false, dangling, terminal_id_differs: tid };
                 st.case(true, fnv(&serde_json::to_vec(&c).unwrap()));
                 st.class(&format!("{op}/{site:?}"));
                 if code == 0x64 && inter == 1 {
@@ -350,7 +364,7 @@ pub fn run(tier: Tier) -> i32 {
             let strat = (0usize..SITES.len(), any::<u8>(), 0usize..6, any::<bool>());
             ctx.proptest(seed, 20_000, &strat, st, |(si, code, inter, dang), st| {
                 let (op, site, dangling, tid) = SITES[*si];
-                let c = AbortCase { op: op.to_string(), site, code: *code, intermediates: *inter, after_status: *inter % 2 == 1, with_receipt: if *inter % 3 == 2 { Some(*code as u64 * 7 % 9999) } else { None }, prior_fault: match *inter { 4 => Some(0), 5 => Some(99), _ => None }, others_open: *inter == 3 && matches!(site, Kind::PartialReversal | Kind::PreAuthReversal | Kind::Reservation), dangling: dangling || *dang, terminal_id_differs: tid };
+                let c = AbortCase { op: op.to_string(), site, code: *code, intermediates: *inter, after_status: *inter % 2 == 1, with_receipt: if *inter % 3 == 2 { Some(*code as u64 * 7 % 9999) } else { None }, extra: None, prior_fault: match *inter { 4 => Some(0), 5 => Some(99), _ => None }, others_open: *inter == 3 && matches!(site, Kind::PartialReversal | Kind::PreAuthReversal | Kind::Reservation), dangling: dangling || *dang, terminal_id_differs: tid };
                 st.case(true, fnv(&serde_json::to_vec(&c).unwrap()));
                 st.class("random");
                 check_abort(&c)
